@@ -9,10 +9,13 @@ package home
 
 import (
 	"context"
+	"encoding/hex"
 	"encoding/json"
 	"fmt"
+	"net"
 	"net/http"
 	"net/http/httptest"
+	"net/netip"
 	"sort"
 	"strings"
 	"testing"
@@ -29,11 +32,28 @@ var (
 	vfC04IDs   = []string{
 		"192.0.2.1", "192.0.2.2", "2001:db8::1", "10.0.0.0/8", "10.1.0.0/16", "192.0.2.0/24",
 		"02:00:00:00:00:01", "02:00:00:00:00:02", "kid-1", "guest",
+		// an EUI-64 and an InfiniBand hardware address
+		"02-00-5e-10-00-00-00-01", "00-00-00-00-fe-80-00-00-00-00-00-00-02-00-5e-10-00-00-00-01",
 	}
 )
 
-// vfC04Canon is the canonical form the API reports an identifier in.
-func vfC04Canon(id string) (c string) { return strings.ToLower(id) }
+// vfC04Canon says what an identifier denotes when the program reads it: an
+// address, a network, a hardware address or a ClientID, in the order the
+// clients API tries them.  Two spellings are the same identifier if they
+// denote the same thing.
+func vfC04Canon(id string) (c string) {
+	if a, err := netip.ParseAddr(id); err == nil {
+		return "address " + a.String()
+	}
+	if p, err := netip.ParsePrefix(id); err == nil {
+		return "network " + p.String()
+	}
+	if m, err := net.ParseMAC(id); err == nil {
+		return "hardware address " + hex.EncodeToString(m)
+	}
+
+	return "clientid " + strings.ToLower(id)
+}
 
 func vfC04Do(h http.Handler, method, path, body string) (rec *httptest.ResponseRecorder) {
 	var r *http.Request
@@ -99,6 +119,8 @@ func TestVFC04HTTP(t *testing.T) {
 		rejected, moved := false, false
 		var trace []string
 
+		// listedRaw holds the identifiers of every client as last listed.
+		listedRaw := map[string][]string{}
 		listing := func() (got map[string][]string) {
 			rec := vfC04Do(h, http.MethodGet, "/control/clients", "")
 			if rec.Code != http.StatusOK {
@@ -118,9 +140,13 @@ func TestVFC04HTTP(t *testing.T) {
 				if _, dup := got[c.Name]; dup {
 					t.Fatalf("client %q listed twice", c.Name)
 				}
-				ids := append([]string{}, c.IDs...)
+				var ids []string
+				for _, id := range c.IDs {
+					ids = append(ids, vfC04Canon(id))
+				}
 				sort.Strings(ids)
 				got[c.Name] = ids
+				listedRaw[c.Name] = c.IDs
 			}
 
 			return got
@@ -129,7 +155,10 @@ func TestVFC04HTTP(t *testing.T) {
 			got := listing()
 			want := map[string][]string{}
 			for n, ids := range model {
-				s := append([]string{}, ids...)
+				var s []string
+				for _, id := range ids {
+					s = append(s, vfC04Canon(id))
+				}
 				sort.Strings(s)
 				want[n] = s
 			}
@@ -212,6 +241,31 @@ func TestVFC04HTTP(t *testing.T) {
 					model[name] = ids
 				}
 				check("update")
+			},
+			"resave": func(t *rapid.T) {
+				// what the web interface does when another setting of a
+				// client is changed: the client is sent back with the
+				// identifiers as they were listed
+				if len(model) == 0 {
+					t.Skip("no clients")
+				}
+				var names []string
+				for n := range model {
+					names = append(names, n)
+				}
+				sort.Strings(names)
+				name := rapid.SampledFrom(names).Draw(t, "name")
+				listing()
+				body, _ := json.Marshal(map[string]any{"name": name, "data": json.RawMessage(vfC04Body(name, listedRaw[name]))})
+				rec := vfC04Do(h, http.MethodPost, "/control/clients/update", string(body))
+				trace = append(trace, fmt.Sprintf("resave %s %v -> %d", name, listedRaw[name], rec.Code))
+				vfC04.Eval()
+				vfC04.Class("http:resave_with_listed_identifiers")
+				if rec.Code != http.StatusOK {
+					t.Fatalf("sending client %q back with its listed identifiers %v answered %d %s\nhistory: %s",
+						name, listedRaw[name], rec.Code, rec.Body.String(), strings.Join(trace, "; "))
+				}
+				check("resave")
 			},
 			"delete": func(t *rapid.T) {
 				name := rapid.SampledFrom(vfC04Names).Draw(t, "name")
